@@ -27,6 +27,13 @@ var (
 		{Name: "hex:6c6962fe", Ver: "*", Msg: "not found"},
 		{Name: "hex:6c6962ff", Ver: "*", Msg: "not found"},
 		{Name: "lib\ufffd", Ver: "*", Msg: "not found"},
+		// Messages for one requirement whose order by length, by case-folded
+		// text and by bytes all differ.
+		{Name: "e", Ver: "^1", Msg: "zz"},
+		{Name: "e", Ver: "^1", Msg: "could not resolve: no matching version"},
+		{Name: "e", Ver: "^1", Msg: "Not found"},
+		{Name: "e", Ver: "^1", Msg: "not found: e"},
+		{Name: "d", Ver: "*", Msg: ""},
 	}
 )
 
